@@ -570,6 +570,25 @@ Proof.
   intros k. rewrite Nat2Z.inj_succ. do 3 f_equal. lia.
 Qed.
 
+(* ... but an event that is still ahead on the reference instant's own UTC day is passed over: it is the
+   answer for the previous date, which the lookup by the date of the reference instant never asks for
+   (finding F15, first half) *)
+Theorem sun_shifted_skips_pending E key evf lo hi st dt :
+  utc_regular_shift (sun_ev E key) evf 1 lo hi -> location E <> None -> cache_coherent E st ->
+  lo <= utc_day dt - 1 -> utc_day dt <= hi ->
+  dt < round_up_sec (evf (utc_day dt - 1)) ->
+  fst (get_next E (PSun key None) st dt) = Ok (round_up_sec (evf (utc_day dt))) /\
+  dt < round_up_sec (evf (utc_day dt - 1)) < round_up_sec (evf (utc_day dt)).
+Proof.
+  intros Hreg HL Hc Hlo Hhi Hpending.
+  destruct (sun_get_next_pure E key None st dt Hc) as (-> & _).
+  rewrite (sun_next_pure_regular_shift1 E key evf lo hi dt Hreg HL ltac:(lia)).
+  split; [reflexivity|]. split; [exact Hpending|].
+  destruct (Hreg (utc_day dt - 1) ltac:(lia)) as (_ & _ & Hlt).
+  destruct (Hreg (utc_day dt) ltac:(lia)) as (_ & Hge & _).
+  pose proof (round_up_sec_bounds (evf (utc_day dt))) as Hru. lia.
+Qed.
+
 (* "one solar day apart": what the selection logic adds to the oracle's own spacing is the rounding,
    i.e. less than a second either way.  (That astral's events are 23.5 .. 24.5 h apart below 60 degrees
    is a fact about astral, tested by the harness, not proved.) *)
@@ -674,6 +693,41 @@ Proof.
   split; [apply cache_coherent_empty; reflexivity|].
   split; [exists 1760140474000000000; split; vm_compute; reflexivity|].
   vm_compute. reflexivity.
+Qed.
+
+(* F15, second half: with a filter the loop continues from "answer + 24 h", which is two dates further when
+   the answer for date d lies on date d+1: every other date is never asked.
+   Chicago (41.88, -87.63), sun.time_at_elevation(-0.833, SETTING), UTC dates 2025-06-16 .. 06-25 (day numbers
+   20255 ..): the answers lie at 01:30 .. 01:32 of the FOLLOWING date.  Filter: Wednesday (of the UTC
+   reading, tz_utc), reference instant Monday 2025-06-16T12:00Z: the answer of date 06-17 (Wednesday
+   06-18T01:30:53Z) is admissible and ahead, the producer answers Wednesday 06-25T01:32:17Z. *)
+Definition chicago_elev_setting_2025 : list (Z * Z) :=
+  [ (20255, 1750123832086438000); (20256, 1750210252067084000); (20257, 1750296670126595000);
+    (20258, 1750383086237724000); (20259, 1750469500374969000); (20260, 1750555912514618000);
+    (20261, 1750642322634792000); (20262, 1750728730715477000); (20263, 1750815136738555000);
+    (20264, 1750901540687823000) ].
+
+Theorem sun_following_date_refuted :
+  exists (E : penv) (key : nat) (f : filt) (dt v d e : Z),
+    cache_coherent E pstate0 /\
+    utc_regular_shift (sun_ev E key) (table_fun chicago_elev_setting_2025) 1 20255 20264 /\
+    fst (get_next E (PSun key (Some f)) pstate0 dt) = Ok v /\
+    sun_ev E key d = Some e /\
+    dt < round_up_sec e < v /\
+    allow_opt (pz E) (Some f) (round_up_sec e) = true /\
+    v - round_up_sec e > 6 * DAY.
+Proof.
+  exists (table_env chicago_elev_setting_2025), 0%nat, (FWeekday [3]), 1750075200000000000,
+         1750815137000000000, 20256, 1750210252067084000.
+  split; [apply cache_coherent_empty; reflexivity|].
+  split.
+  { intros d Hd. assert (Hc : d = 20255 \/ d = 20256 \/ d = 20257 \/ d = 20258 \/ d = 20259 \/ d = 20260 \/
+                              d = 20261 \/ d = 20262 \/ d = 20263 \/ d = 20264) by lia.
+    destruct Hc as [->|[->|[->|[->|[->|[->|[->|[->|[->| ->]]]]]]]]]; vm_compute; intuition discriminate. }
+  split; [vm_compute; reflexivity|].
+  split; [vm_compute; reflexivity|].
+  split; [vm_compute; split; reflexivity|].
+  split; vm_compute; reflexivity.
 Qed.
 
 (* ------------------------------------------------------------------------------------------- *)
